@@ -43,6 +43,7 @@ import (
 )
 
 const c20Finding = "C20-watch-gap-after-load"
+const c20FindingInvalidate = "C20-invalidate-removes-current-owner"
 
 var c20Quiet = slog.New(slog.NewTextHandler(io.Discard, nil))
 
@@ -179,12 +180,14 @@ type c20Flavour struct {
 	sentinel c20Entry
 	sentinel2 c20Entry
 	start    func(ctx context.Context, cli *clientv3.Client) (lookup func(c20Entry) string, all func() map[string]string, stop func(), err error)
+	// invalidate is set by start: what the proxy calls after NOT_LEADER / NOT_COORDINATOR for that key
+	invalidate *func(c20Entry)
 	prefix   string
 	bulk     func(i int) c20Entry // i-th lease of the large population (sorts before the universe)
 }
 
 func c20PartitionFlavour() c20Flavour {
-	f := c20Flavour{name: "partition", prefix: partitionLeasePrefix + "/"}
+	f := c20Flavour{name: "partition", prefix: partitionLeasePrefix + "/", invalidate: new(func(c20Entry))}
 	for _, t := range []string{"orders", "pay.v1"} {
 		for p := int32(0); p < 2; p++ {
 			f.universe = append(f.universe, c20Entry{EtcdKey: partitionLeaseKey(t, p), Name: fmt.Sprintf("%s:%d", t, p), topic: t, part: p})
@@ -200,6 +203,7 @@ func c20PartitionFlavour() c20Flavour {
 		if err != nil {
 			return nil, nil, nil, err
 		}
+		*f.invalidate = func(e c20Entry) { r.Invalidate(e.topic, e.part) }
 		return func(e c20Entry) string { return r.LookupOwner(e.topic, e.part) },
 			func() map[string]string {
 				m := map[string]string{}
@@ -213,7 +217,7 @@ func c20PartitionFlavour() c20Flavour {
 }
 
 func c20GroupFlavour() c20Flavour {
-	f := c20Flavour{name: "group", prefix: groupLeasePrefix + "/"}
+	f := c20Flavour{name: "group", prefix: groupLeasePrefix + "/", invalidate: new(func(c20Entry))}
 	for _, g := range []string{"g0", "team/app", "g:1", "orders", "payments-consumer"} {
 		f.universe = append(f.universe, c20Entry{EtcdKey: groupLeasePrefix + "/" + g, Name: g})
 	}
@@ -227,6 +231,7 @@ func c20GroupFlavour() c20Flavour {
 		if err != nil {
 			return nil, nil, nil, err
 		}
+		*f.invalidate = func(e c20Entry) { r.Invalidate(e.Name) }
 		return func(e c20Entry) string { return r.LookupOwner(e.Name) },
 			func() map[string]string {
 				m := map[string]string{}
@@ -283,6 +288,13 @@ type c20Case struct {
 	current *c20Stream
 	pendingWatch bool
 	watcherDead  bool // the router's watch goroutine exited although the router was not stopped
+	barrier       func() (string, error)
+	lookup        func(c20Entry) string
+	known         bool            // the Invalidate finding is listed: its predicate is excluded
+	sent          map[int]string  // proxy requests under way: universe index -> broker the request went to
+	invalidated   bool
+	staleInvalidate bool          // an Invalidate hit a table entry that had already moved on
+	excludedInv   bool
 	failReloads   int
 	failedReload  bool
 	betweenDone   bool
@@ -326,6 +338,90 @@ func (c *c20Case) applyOp(phase string, op c20Op, brokers []string) error {
 	ctx, cancel := context.WithTimeout(context.Background(), 30*time.Second)
 	defer cancel()
 	switch op.Kind {
+	case "proxy-handover":
+		// a request is forwarded, the key changes hands, then the answer arrives
+		if err := c.applyOp(phase, c20Op{Kind: "proxy-send", Items: op.Items}, brokers); err != nil {
+			return err
+		}
+		to, ok := c.sent[op.Items[0][0]]
+		if !ok {
+			return nil
+		}
+		next := brokers[1+op.Items[0][1]%3]
+		if next == to {
+			next = brokers[1+(op.Items[0][1]+1)%3]
+		}
+		if err := c.write(phase, c.f.universe[op.Items[0][0]], next); err != nil {
+			return err
+		}
+		return c.applyOp(phase, c20Op{Kind: "proxy-reply", Items: op.Items}, brokers)
+	case "proxy-send", "proxy-reply":
+		// The proxy forwards a request for a key to the broker its table names (any broker if the
+		// table has no entry); when the answer is NOT_LEADER / NOT_COORDINATOR it calls
+		// Invalidate(key). Both halves happen only while a watch is established, each after a
+		// barrier, so that what the table says at that moment is well defined.
+		// During an outage (stream cut, router asleep or parked at its reload) the table is
+		// frozen and possibly stale - the proxy keeps using it; no barrier is needed or possible.
+		inOutage := strings.HasPrefix(phase, "outage")
+		if c.barrier == nil || c.lookup == nil || c.current == nil || c.watcherDead || !(strings.HasPrefix(phase, "live") || inOutage) {
+			return nil
+		}
+		if !inOutage {
+			if _, err := c.barrier(); err != nil {
+				return err
+			}
+			if c.watcherDead {
+				return nil
+			}
+		}
+		e := c.f.universe[op.Items[0][0]]
+		if op.Kind == "proxy-send" {
+			to := c.lookup(e)
+			if to == "" {
+				to = brokers[1+op.Items[0][1]%3] // no route: the proxy picks some broker
+			}
+			if c.sent == nil {
+				c.sent = map[int]string{}
+			}
+			c.sent[op.Items[0][0]] = to
+			c.hist = append(c.hist, c20Write{Phase: phase + "/proxy-forwards-to", Key: e.Name, Val: to})
+			return nil
+		}
+		idx := op.Items[0][0]
+		to, ok := c.sent[idx]
+		if !ok {
+			// no request under way for the drawn key: the answer of the oldest other one arrives
+			for i := range c.f.universe {
+				if t, has := c.sent[i]; has {
+					idx, to, ok = i, t, true
+					break
+				}
+			}
+		}
+		if !ok {
+			return nil
+		}
+		e = c.f.universe[idx]
+		delete(c.sent, idx)
+		kvs, err := c.etcdContent()
+		if err != nil {
+			return err
+		}
+		if kvs[e.EtcdKey] == to {
+			return nil // that broker still owns it: the request succeeds, nothing is invalidated
+		}
+		if cur := c.lookup(e); cur != to {
+			// the table entry is no longer the broker that answered: it already moved on
+			if c.known {
+				c.excludedInv = true
+				return nil
+			}
+			c.staleInvalidate = true
+		}
+		(*c.f.invalidate)(e)
+		c.invalidated = true
+		c.hist = append(c.hist, c20Write{Phase: phase + "/NOT_LEADER-from-" + to + "-proxy-invalidates", Key: e.Name, Val: ""})
+		return nil
 	case "bulk":
 		// one of the first keys (in key order) of the large population changes hands
 		return c.write(phase, c.f.bulk(op.Items[0][0]), brokers[op.Items[0][1]])
@@ -677,52 +773,11 @@ func (c *c20Case) run(p c20Plan) (string, error) {
 		}
 		return apply(liveName, live)
 	}
-	if err := reconnect(p.Gap1, p.Live1, "gap", "live"); err != nil {
-		return "", err
-	}
-	cut := func(outage, gap, live []c20Op, n string, failReloads int, compact bool) error {
-		if c.watcherDead {
-			if err := apply("outage"+n, outage); err != nil {
-				return err
-			}
-			return reconnect(gap, live, "gap"+n, "live"+n)
-		}
-		c.failReloads = failReloads
-		close(c.current.cut)
-		if err := apply("outage"+n, outage); err != nil {
-			return err
-		}
-		if compact {
-			// etcd compacts its history up to now: the revision the router would resume from is gone
-			ctx, cancel := context.WithTimeout(context.Background(), 30*time.Second)
-			resp, err := c.admin.Get(ctx, "/vf-rev")
-			if err == nil {
-				_, err = c.admin.Compact(ctx, resp.Header.Revision)
-			}
-			cancel()
-			if err != nil {
-				return fmt.Errorf("%w: compact: %v", errC20Inconclusive, err)
-			}
-			c.compacted = true
-			c.hist = append(c.hist, c20Write{Phase: "outage" + n + "/etcd-compacted", Key: "-", Val: ""})
-		}
-		// the router sleeps 1 s (real time), then reloads and re-watches
-		return reconnect(gap, live, "gap"+n, "live"+n)
-	}
-	if p.Cut {
-		if err := cut(p.Outage, p.Gap2, p.Live2, "2", p.FailReloads, p.Compact); err != nil {
-			return "", err
-		}
-		if p.SecondCut {
-			if err := cut(p.Outage2, nil, p.Live3, "3", p.FailReloads2, false); err != nil {
-				return "", err
-			}
-		}
-	}
 	// barrier through the established watch, independent of how the router applies events:
 	// sentinel A is written and we wait until the router has TAKEN the response carrying it;
 	// then sentinel B, same wait. The router takes a response only after it has completely
 	// handled the previous one, so by then everything up to and including A is applied.
+	barrier := func() (string, error) {
 	// waitTaken: true = the router took the response carrying key; false = the current stream
 	// ended under us (etcd closed it after confirming it, e.g. compacted start revision).
 	waitTaken := func(key string) (bool, error) {
@@ -780,6 +835,56 @@ func (c *c20Case) run(p c20Plan) (string, error) {
 			return "", err
 		}
 	}
+	return prefix, nil
+	}
+	c.barrier = barrier
+	c.lookup = r.lookup
+	if err := reconnect(p.Gap1, p.Live1, "gap", "live"); err != nil {
+		return "", err
+	}
+	cut := func(outage, gap, live []c20Op, n string, failReloads int, compact bool) error {
+		if c.watcherDead {
+			if err := apply("outage"+n, outage); err != nil {
+				return err
+			}
+			return reconnect(gap, live, "gap"+n, "live"+n)
+		}
+		c.failReloads = failReloads
+		close(c.current.cut)
+		if err := apply("outage"+n, outage); err != nil {
+			return err
+		}
+		if compact {
+			// etcd compacts its history up to now: the revision the router would resume from is gone
+			ctx, cancel := context.WithTimeout(context.Background(), 30*time.Second)
+			resp, err := c.admin.Get(ctx, "/vf-rev")
+			if err == nil {
+				_, err = c.admin.Compact(ctx, resp.Header.Revision)
+			}
+			cancel()
+			if err != nil {
+				return fmt.Errorf("%w: compact: %v", errC20Inconclusive, err)
+			}
+			c.compacted = true
+			c.hist = append(c.hist, c20Write{Phase: "outage" + n + "/etcd-compacted", Key: "-", Val: ""})
+		}
+		// the router sleeps 1 s (real time), then reloads and re-watches
+		return reconnect(gap, live, "gap"+n, "live"+n)
+	}
+	if p.Cut {
+		if err := cut(p.Outage, p.Gap2, p.Live2, "2", p.FailReloads, p.Compact); err != nil {
+			return "", err
+		}
+		if p.SecondCut {
+			if err := cut(p.Outage2, nil, p.Live3, "3", p.FailReloads2, false); err != nil {
+				return "", err
+			}
+		}
+	}
+	prefix, err := barrier()
+	if err != nil {
+		return "", err
+	}
 	kvs, err := c.etcdContent()
 	if err != nil {
 		return "", err
@@ -817,7 +922,18 @@ func c20Writes(rt *rapid.T, n int, label string, max int) []c20Op {
 	k := rapid.IntRange(0, max).Draw(rt, label+"N")
 	out := make([]c20Op, 0, k)
 	for i := 0; i < k; i++ {
-		kind := rapid.SampledFrom([]string{"one", "one", "one", "one", "txn", "txn", "lease-put", "lease-put", "revoke", "revoke"}).Draw(rt, label+"Kind")
+		kinds := []string{"one", "one", "one", "one", "txn", "txn", "lease-put", "lease-put", "revoke", "revoke"}
+		if strings.HasPrefix(label, "live") || strings.HasPrefix(label, "outage") {
+			kinds = append(kinds, "proxy-send", "proxy-send", "proxy-reply", "proxy-reply", "proxy-handover", "proxy-handover", "proxy-handover")
+		}
+		kind := rapid.SampledFrom(kinds).Draw(rt, label+"Kind")
+		if strings.HasPrefix(kind, "proxy") {
+			{
+				// send targets any key; a reply goes to a request under way (drawn key, no-op if none)
+				out = append(out, c20Op{Kind: kind, Items: [][2]int{{rapid.IntRange(0, n-1).Draw(rt, label+"ProxyKey"), rapid.IntRange(0, 2).Draw(rt, label+"ProxyAny")}}})
+				continue
+			}
+		}
 		op := c20Op{Kind: kind}
 		items := 1
 		if kind == "txn" || kind == "lease-put" {
@@ -854,14 +970,15 @@ func c20Property(t *testing.T, leg string, f c20Flavour) {
 	st := vfkit.NewStats("C20", leg)
 	defer st.Flush()
 	env := c20NewEnv(t)
-	known := vfkit.Known(c20Finding)
+	knownGap := vfkit.Known(c20Finding)
+	known := vfkit.Known(c20FindingInvalidate)
 	rapid.Check(t, func(rt *rapid.T) {
 		st.Eval()
 		n := len(f.universe)
 		var p c20Plan
 		p.Pre = c20Writes(rt, n, "pre", 4)
 		p.Gap1 = c20Writes(rt, n, "gap1", 2)
-		p.Live1 = c20Writes(rt, n, "live1", 4)
+		p.Live1 = c20Writes(rt, n, "live1", 6)
 		// 1 case in 4: more than one page (1000) of leases exists; if the router reads the table in
 		// several reads, some of the first keys change hands between two of them
 		if rapid.IntRange(0, 3).Draw(rt, "bulk") == 2 {
@@ -895,7 +1012,7 @@ func c20Property(t *testing.T, leg string, f c20Flavour) {
 				p.FailReloads2 = rapid.IntRange(0, 1).Draw(rt, "failReloads2")
 			}
 		}
-		if known && (len(p.Gap1) > 0 || len(p.Gap2) > 0) {
+		if knownGap && (len(p.Gap1) > 0 || len(p.Gap2) > 0) {
 			// listed finding: a change between loadAll's read and the start of the watch is never
 			// observed. Exclude exactly those writes (they are moved to just before the load).
 			st.ExcludedCase(c20Finding)
@@ -905,6 +1022,7 @@ func c20Property(t *testing.T, leg string, f c20Flavour) {
 		}
 		c, done := env.newCase(f)
 		defer done()
+		c.known = known
 		v, err := c.run(p)
 		if err != nil {
 			fmt.Println("VF-INCONCLUSIVE:", err)
@@ -922,6 +1040,9 @@ func c20Property(t *testing.T, leg string, f c20Flavour) {
 			}
 		}
 		for _, op := range p.Live1 {
+			if strings.HasPrefix(op.Kind, "proxy") {
+				continue
+			}
 			for _, w := range op.Items {
 				if loaded[w[0]] {
 					touchedLoaded = true
@@ -959,6 +1080,16 @@ func c20Property(t *testing.T, leg string, f c20Flavour) {
 		if c.compacted {
 			st.Class("etcd-compacted-during-outage")
 			nt = true
+		}
+		if c.invalidated {
+			st.Class("proxy-invalidates-a-route-after-NOT_LEADER")
+			nt = true
+		}
+		if c.staleInvalidate {
+			st.Class("invalidate-after-the-table-had-moved-on")
+		}
+		if c.excludedInv {
+			st.ExcludedCase(c20FindingInvalidate)
 		}
 		if c.streamRefused {
 			st.Class("resumed-watch-refused(compacted)")
@@ -1030,4 +1161,35 @@ func TestVF_C20_Witness(t *testing.T) {
 		what = all[0]
 	}
 	st.KnownResult(c20Finding, len(all) > 0, what)
+
+	// Invalidate after the table has already moved on: a owns key 0 and the proxy forwards a
+	// request to a; a hands over to b and the watch updates the table; a's NOT_LEADER answer
+	// arrives and the proxy invalidates the key; no further lease change.
+	var inv []string
+	for _, f := range []c20Flavour{c20PartitionFlavour(), c20GroupFlavour()} {
+		st.Eval()
+		p := c20Plan{Pre: []c20Op{c20One(0, 1)}, Live1: []c20Op{
+			{Kind: "proxy-send", Items: [][2]int{{0, 0}}},
+			c20One(0, 2),
+			{Kind: "proxy-reply", Items: [][2]int{{0, 0}}},
+		}}
+		c, done := env.newCase(f)
+		v, err := c.run(p)
+		done()
+		if err != nil {
+			fmt.Println("VF-INCONCLUSIVE:", err)
+			t.Fatalf("inconclusive: %v", err)
+		}
+		st.Class(fmt.Sprintf("witness-invalidate-%s-violation=%v", f.name, v != ""))
+		if v != "" {
+			st.NonTrivial("invalidate", f.name)
+			st.Sample(map[string]any{"flavour": f.name, "violation": v})
+			inv = append(inv, v)
+		}
+	}
+	whatInv := "Invalidate after the watch already moved the table on removes the current owner's route"
+	if len(inv) > 0 {
+		whatInv = inv[0]
+	}
+	st.KnownResult(c20FindingInvalidate, len(inv) > 0, whatInv)
 }
